@@ -7,6 +7,7 @@ import (
 	"fmt"
 	"math/big"
 	"math/rand/v2"
+	"os"
 	"sort"
 	"strings"
 
@@ -23,7 +24,19 @@ type Case struct {
 	Ctl   string    `json:"ctl"`
 	Args  []ref.Val `json:"args"`
 	Dirty string    `json:"dirty,omitempty"`
-	Tag   string    `json:"tag,omitempty"` // param-mix: family/context/arguments left
+	Tag   string    `json:"tag,omitempty"`  // param-mix: family/context/arguments left
+	Bind  string    `json:"bind,omitempty"` // printer variables bound around the call, as let bindings
+}
+
+// curBind is the Bind of the case being judged: the real format and the princ /
+// prin1 calls the oracle ties ~A / ~S to run inside the same bindings.
+var curBind string
+
+func withBind(src string) string {
+	if curBind == "" {
+		return src
+	}
+	return "(let (" + curBind + ") " + src + ")"
 }
 
 func toObj(v ref.Val) slip.Object {
@@ -32,6 +45,9 @@ func toObj(v ref.Val) slip.Object {
 		n, _ := new(big.Int).SetString(v.S, 10)
 		if n == nil {
 			panic("bad integer " + v.S)
+		}
+		if v.Oct && n.IsInt64() && 0 <= n.Int64() && n.Int64() <= 255 {
+			return slip.Octet(n.Int64())
 		}
 		if n.IsInt64() {
 			return slip.Fixnum(n.Int64())
@@ -100,6 +116,9 @@ func valKey(v ref.Val) string {
 	var w func(v ref.Val)
 	w = func(v ref.Val) {
 		b.WriteString(v.K)
+		if v.Oct {
+			b.WriteByte('8')
+		}
 		b.WriteByte(0)
 		b.WriteString(v.S)
 		b.WriteByte(1)
@@ -121,7 +140,7 @@ type printer struct {
 }
 
 func (p *printer) call(fn string, v ref.Val) string {
-	key := fn + valKey(v)
+	key := fn + curBind + "\x03" + valKey(v)
 	if s, ok := p.cache[key]; ok {
 		if e := p.ecache[key]; e != nil && p.err == nil {
 			p.err = e
@@ -130,7 +149,7 @@ func (p *printer) call(fn string, v ref.Val) string {
 	}
 	scope := slip.NewScope()
 	scope.Let(slip.Symbol("c15-x"), toObj(v))
-	res, err := sl.Eval(scope, "(with-output-to-string (c15-s) ("+fn+" c15-x c15-s))")
+	res, err := sl.Eval(scope, withBind("(with-output-to-string (c15-s) ("+fn+" c15-x c15-s))"))
 	out := ""
 	var perr *sl.Err
 	if err != nil {
@@ -157,7 +176,7 @@ func (p *printer) Prin1(v ref.Val) string { return p.call("prin1", v) }
 func toString(fn string, v ref.Val) (string, *sl.Err) {
 	scope := slip.NewScope()
 	scope.Let(slip.Symbol("c15-x"), toObj(v))
-	res, err := sl.Eval(scope, "("+fn+" c15-x)")
+	res, err := sl.Eval(scope, withBind("("+fn+" c15-x)"))
 	if err != nil {
 		return "", err
 	}
@@ -226,11 +245,11 @@ func runSlip(ctl string, args []ref.Val, dest int) outcome {
 	var src string
 	switch dest {
 	case destNil:
-		src = call.String()
+		src = withBind(call.String())
 	case destStream:
-		src = "(let ((c15-s (make-string-output-stream))) (list " + call.String() + " (get-output-stream-string c15-s)))"
+		src = "(let ((c15-s (make-string-output-stream))) (list " + withBind(call.String()) + " (get-output-stream-string c15-s)))"
 	default:
-		src = "(let ((c15-s (make-string-output-stream))) (list (let ((*standard-output* c15-s)) " + call.String() + ") (get-output-stream-string c15-s)))"
+		src = "(let ((c15-s (make-string-output-stream))) (list (let ((*standard-output* c15-s)) " + withBind(call.String()) + ") (get-output-stream-string c15-s)))"
 	}
 	res, err := sl.Eval(scope, src)
 	if err != nil {
@@ -341,6 +360,9 @@ func showArgs(args []ref.Val) string {
 func showVal(v ref.Val) string {
 	switch v.K {
 	case "i":
+		if v.Oct {
+			return "(coerce " + v.S + " 'octet)"
+		}
 		return v.S
 	case "s":
 		return fmt.Sprintf("%q", v.S)
@@ -367,6 +389,11 @@ func showVal(v ref.Val) string {
 }
 
 func exec(x *fw.Ctx, c Case) {
+	curBind = c.Bind
+	defer func() { curBind = "" }()
+	if c.Bind != "" {
+		x.Cover("bind:" + c.Bind)
+	}
 	x.Cover("block:" + c.Blk)
 	if c.Dirty != "" {
 		x.Cover("dirty-stream:" + c.Dirty)
@@ -417,10 +444,19 @@ func exec(x *fw.Ctx, c Case) {
 	v := judge(c.Ctl, c.Args)
 	judgeTrace = nil
 	obs := map[string]any{"ctl": c.Ctl, "args": showArgs(c.Args)}
+	if c.Bind != "" {
+		obs["bind"] = c.Bind
+	}
 	x.Observe(obs)
 	if v.kind == "unjudged" {
 		x.Trivial()
 		x.Cover("unjudged:" + v.reason)
+		if c.Blk != "random" {
+			x.Cover("unjudged-in:" + c.Blk + ":" + v.reason)
+		}
+		if os.Getenv("C15_DEBUG_UNJUDGED") != "" && c.Blk != "random" && c.Blk != "probe" {
+			fmt.Fprintf(os.Stderr, "UNJUDGED %s %s bind=%q ctl=%.80q args=%.120s\n", c.Blk, v.reason, c.Bind, c.Ctl, showArgs(c.Args))
+		}
 		if v.wantErr != nil {
 			obs["oracle"] = v.wantErr.Error()
 		}
@@ -429,16 +465,28 @@ func exec(x *fw.Ctx, c Case) {
 	obs["expected"] = v.want[0]
 	obs["format-nil"] = v.describe()
 	if v.kind != "" {
+		under := ""
+		if c.Bind != "" {
+			// do the bindings matter? if the case fails the same way without them
+			// it is named without them
+			curBind = ""
+			if judge(c.Ctl, c.Args).kind == v.kind {
+				x.Cover("bind-irrelevant-to-failure")
+			} else {
+				curBind = c.Bind
+				under = " under=" + bindVars(c.Bind)
+			}
+		}
 		mc, ma := minimise(c.Ctl, c.Args, v.kind)
 		mv := judge(mc, ma)
-		sig := signature(mc, ma, mv)
+		sig := signature(mc, ma, mv) + under
 		if c.Blk == "random" && c.Dirty == "" {
 			// the clean stream avoids every known-broken construct, so nothing
 			// that fails there may be booked on one
 			sig = "clean-stream " + sig
 		}
-		x.Fail(sig, "(format nil %q %s) => %s, the directive definitions give %q [smallest form of: (format nil %q %s) => %s, expected %q]",
-			mc, showArgs(ma), mv.describe(), first(mv.want), c.Ctl, showArgs(c.Args), v.describe(), v.want[0])
+		x.Fail(sig, "(format nil %q %s)%s => %s, the directive definitions give %q [smallest form of: (format nil %q %s) => %s, expected %q]",
+			mc, showArgs(ma), bindNote(curBind), mv.describe(), first(mv.want), c.Ctl, showArgs(c.Args), v.describe(), v.want[0])
 		return
 	}
 	x.Cover("agree:nil")
@@ -469,6 +517,15 @@ func exec(x *fw.Ctx, c Case) {
 			x.Cover("agree:" + name)
 		}
 	}
+	// the other routes into the directive interpreter, and a history on one stream
+	if c.Blk == "probe" || c.Blk == "param-mix" || c.Blk == "bind" || c.Blk == "boundary" || x.Index%8 == 0 {
+		checkRoutes(x, c, v.got.text)
+		if columnFree(dirs) {
+			checkHistory(x, c, v.got.text, x.Index)
+		} else {
+			x.Cover("history-skipped:column-dependent")
+		}
+	}
 	// inverse parsers for the spelled-out radix forms
 	if len(dirs) == 1 && dirs[0].Ch == 'r' && len(dirs[0].Params) == 0 && len(c.Args) == 1 {
 		n, _ := c.Args[0].Int()
@@ -489,6 +546,24 @@ func exec(x *fw.Ctx, c Case) {
 			}
 		}
 	}
+}
+
+// bindVars names the variables of a let-binding text: "(*print-base* 16)" -> "*print-base*".
+func bindVars(b string) string {
+	var vs []string
+	for _, f := range strings.Fields(b) {
+		if strings.HasPrefix(f, "(*") {
+			vs = append(vs, f[1:])
+		}
+	}
+	return strings.Join(vs, ",")
+}
+
+func bindNote(b string) string {
+	if b == "" {
+		return ""
+	}
+	return " with " + b
 }
 
 func first(s []string) string {
@@ -595,6 +670,8 @@ func coverArgs(x *fw.Ctx, args []ref.Val) {
 		case "i":
 			n, _ := v.Int()
 			switch {
+			case v.Oct:
+				x.Cover("arg:octet")
 			case n.IsInt64() && n.Sign() < 0:
 				x.Cover("arg:fixnum-negative")
 			case n.IsInt64():
@@ -665,6 +742,7 @@ func init() {
 	}
 	buildProbes()
 	buildMix()
+	buildExtra()
 }
 
 var (
@@ -770,7 +848,7 @@ func englishRandom(r *rand.Rand) Case {
 }
 
 func nCases(tier string) int {
-	return romanBlock + 2*englishSmall + 2*len(englishBig) + intGridSize(tier) + len(probes) + mixCount(tier) + englishRandomCount(tier) + randomCount(tier)
+	return romanBlock + 2*englishSmall + 2*len(englishBig) + intGridSize(tier) + len(probes) + mixCount(tier) + len(extraCases) + englishRandomCount(tier) + randomCount(tier)
 }
 
 func gen(r *rand.Rand, i int, tier string) Case {
@@ -810,6 +888,10 @@ func gen(r *rand.Rand, i int, tier string) Case {
 		return mixCase(i)
 	}
 	i -= mixCount(tier)
+	if i < len(extraCases) {
+		return extraCases[i]
+	}
+	i -= len(extraCases)
 	if i < englishRandomCount(tier) {
 		return englishRandom(r)
 	}
@@ -822,6 +904,9 @@ func gen(r *rand.Rand, i int, tier string) Case {
 	if *g.hit {
 		c.Dirty = g.dirty
 	}
+	if c.Dirty == "" && r.IntN(12) == 0 {
+		c.Bind = bindings[r.IntN(len(bindings))]
+	}
 	return c
 }
 
@@ -833,7 +918,13 @@ func init() {
 			"a probe list that sweeps each directive's parameters (every printable ASCII pad character, ~T over colnum x colinc x column, ~C over characters, block nestings, ~[ shapes; " +
 			"sign x modifier x digit count 1..9 x comma interval for ~D ~B ~O ~X; every outer conditional kind x inner block kind x what follows; ~{ ~:{ ~@{ ~:@{ x limit x nested element shapes; " +
 			"~* with every modifier and parameter outside and inside iterations, ~?, ~( and ~[; ~? / ~@? given control strings that contain blocks; ~A/~S of floats, ratios, vectors, arrays, dotted lists, quote forms against princ/prin1). " +
-			"Then seeded compositions of up to 4 pieces, nested to depth 3, drawn from all directives of the property with literal, v and # parameters and every modifier; arguments are " +
+			"A parameter-mixture block: for ~A ~S (4 slots), ~D ~B ~O ~X (4), ~T (2), ~nR (5, sampled), ~% ~& ~~ ~* ~[ ~{ (1) every slot independently literal / omitted / v given a value / v given nil / # (integer slots), every mixture and order, " +
+			"at top level and inside ~{ ~@{ ~:{ ~:@{ ~[ ~:[ ~@[ ~( ~? ~@? with 0..5 arguments left behind the directive (so # takes 0..9), and pairs of parameterised directives in a row. " +
+			"Printer variables (*print-base* -radix* -case* -escape* -length* -level* -array* -readably*, 22 bindings) bound around the call x object kinds x the forms of ~A/~S (tied to princ/prin1 under the same bindings) and the directives that must not move; " +
+			"boundary sizes: ~T and padding around the 80-space fill block and 160/240 columns, mincol/minpad/counts at 79..81, 255..257, 1023..1025, 4095..4097, 65535..65537, literal text and string arguments of those lengths, 0..1000 list elements / arguments / clauses, nesting to depth 12, integers to 2^4096; " +
+			"octets (slip's third integer representation) as arguments and v parameters of every directive; integer parameters written with a + sign; named characters for ~:C; ~P of 1.0, 3/2 and other non-integers. " +
+			"On every case of the probe blocks and 1 in 8 of the rest the same control and arguments also go through (error ...) and (invalid-method-error ...), whose condition message must be the same text, and twice onto one stream with a failing format between the two calls. " +
+			"Then seeded compositions of up to 4 pieces, nested to depth 3, drawn from all directives of the property with literal, v and # parameters and every modifier (one directive in three draws every parameter slot independently from literal / omitted / v / nil v / #); 1 case in 12 of the clean stream runs under one of the printer-variable bindings; arguments are " +
 			"integers of every magnitude (fixnum/bignum boundary grid, up to 215 bits), strings (incl. ~ and quote characters), characters, symbols, lists of length 0..4 and nested lists, and other objects (floats, ratios, vectors, arrays, dotted lists, quote forms) for ~A/~S. " +
 			"1 case in 8 of the seeded part carries exactly one construct known to be broken on the pinned tree (dirty stream); the rest avoid all of them (clean stream). " +
 			"distinct = distinct (control, arguments); non-trivial = the oracle gives a text (legal control string with enough arguments of the right type)",
